@@ -1,1 +1,496 @@
-(* to be filled *)
+(* C13Link: in a final pass that ends without error every recorded (header-declared) symbol is defined. *)
+From Slinky Require Import Model.Types Model.Generated Model.Runtime Model.Style Model.Script Model.Writer
+  Model.Exports Model.LdSem.
+From Slinky Require Import Spec.C13 Spec.C17 Spec.C04 Spec.C03 Proofs.C06 Proofs.C12 Proofs.C13 Proofs.C18
+  Proofs.C17 Proofs.LdLemmas Proofs.C04 Proofs.C03.
+From Coq Require Import Lia ZArith.
+Local Open Scope Z_scope.
+
+(* ---------- the recorded assignments LdSem executes ---------- *)
+
+Definition rec_sec (s : stmt) : list string :=
+  match s with
+  | SAssign false _ true sym _ => [sym]
+  | _ => []
+  end.
+
+Definition rec_top (s : stmt) : list string :=
+  match s with
+  | SAssign false _ true sym _ => if String.eqb sym "." then [] else [sym]
+  | SOutSec _ _ _ _ _ body => flat_map rec_sec body
+  | _ => []
+  end.
+
+Definition rec_script (s : stmt) : list string :=
+  match s with
+  | SSections body => flat_map rec_top body
+  | _ => rec_top s
+  end.
+
+Definition exec_recorded (script : list stmt) : list string := flat_map rec_script script.
+
+(* scripts in which the recorded assignments are exactly the executed ones: SECTIONS only at the top,
+   output sections only directly inside SECTIONS or at the top, recorded assignments never PROVIDEd
+   and never to "." *)
+Definition flat_sec (s : stmt) : bool :=
+  match s with
+  | SOutSec _ _ _ _ _ _ | SSections _ => false
+  | SAssign p _ r _ _ => negb (r && p)
+  | _ => true
+  end.
+
+Definition flat_top (s : stmt) : bool :=
+  match s with
+  | SSections _ => false
+  | SOutSec _ _ _ _ _ body => forallb flat_sec body
+  | SAssign p _ r sym _ => negb (r && (p || String.eqb sym "."))
+  | _ => true
+  end.
+
+Definition flat_stmt (s : stmt) : bool :=
+  match s with
+  | SSections body => forallb flat_top body
+  | _ => flat_top s
+  end.
+
+Definition script_flat (script : list stmt) : bool := forallb flat_stmt script.
+
+Lemma rec_sec_flat s : flat_sec s = true -> stmt_recorded s = rec_sec s.
+Proof.
+  destruct s; try reflexivity; try discriminate. cbn [flat_sec stmt_recorded rec_sec].
+  destruct recorded, provide; try reflexivity. discriminate.
+Qed.
+
+Lemma flat_map_ext_in' {A B} (f g : A -> list B) l : (forall x, In x l -> f x = g x) -> flat_map f l = flat_map g l.
+Proof. intro H. induction l as [|a l IH]; simpl; [reflexivity|]. rewrite H, IH; auto. intros x Hx. apply H. auto. right. exact Hx. left. reflexivity. Qed.
+
+Lemma rec_top_flat s : flat_top s = true -> stmt_recorded s = rec_top s.
+Proof.
+  destruct s; try reflexivity; try discriminate.
+  - cbn [flat_top stmt_recorded rec_top]. destruct recorded, provide; try reflexivity; try discriminate.
+    destruct (String.eqb sym "."); [discriminate|reflexivity].
+  - cbn [flat_top stmt_recorded rec_top]. intro H. apply flat_map_ext_in'. intros x Hx. apply rec_sec_flat.
+    rewrite forallb_forall in H. apply H. exact Hx.
+Qed.
+
+Lemma rec_script_flat s : flat_stmt s = true -> stmt_recorded s = rec_script s.
+Proof.
+  destruct s; try (apply rec_top_flat).
+  cbn [flat_stmt stmt_recorded rec_script]. intro H. apply flat_map_ext_in'. intros x Hx. apply rec_top_flat.
+  rewrite forallb_forall in H. apply H. exact Hx.
+Qed.
+
+Lemma exec_recorded_flat script : script_flat script = true -> recorded_syms script = exec_recorded script.
+Proof.
+  intro H. apply flat_map_ext_in'. intros x Hx. apply rec_script_flat.
+  unfold script_flat in H. rewrite forallb_forall in H. apply H. exact Hx.
+Qed.
+
+(* ---------- executing ---------- *)
+
+Section Link.
+  Variables (env : list (string * Z)) (senv : list osec) (ext : list (string * Z)).
+
+  Notation top := (exec_top_stmt env senv ext true).
+  Notation runl := (run env senv ext true).
+  Notation secs vma sub name := (exec_sec_stmt env senv ext true vma sub name).
+
+  Definition defined (st : lstate) (x : string) : Prop := exists v, lookup x (l_syms st) = Some v.
+  Definition failed (st : lstate) : Prop := l_errors st <> [].
+
+  (* all the symbols of [l] are defined, unless the pass has reported an error *)
+  Definition good (st : lstate) (l : list string) : Prop := failed st \/ Forall (defined st) l.
+
+  Lemma lookup_app_some {A} x (l1 l2 : list (string * A)) v :
+    lookup x l2 = Some v -> exists v', lookup x (l1 ++ l2) = Some v'.
+  Proof.
+    intro H. induction l1 as [|[k w] l1 IH]; [eauto|]. cbn [app lookup].
+    destruct (String.eqb x k); eauto.
+  Qed.
+
+  Lemma app_not_nil {A} (l new : list A) : l <> [] -> (l ++ new)%list <> [].
+  Proof. destruct l; [congruence|discriminate]. Qed.
+
+  (* syms only grow *)
+  Lemma assign_syms_grow p sym r text st :
+    exists new, l_syms (assign ext true p sym r text st) = (new ++ l_syms st)%list.
+  Proof.
+    destruct (assign_cases ext true p sym r text st) as [E|[[v [_ E]]|[e E]]]; rewrite E.
+    - exists []. reflexivity.
+    - exists [(sym, v)]. reflexivity.
+    - exists []. reflexivity.
+  Qed.
+
+  Lemma sec_stmt_syms_grow vma sub name ss s :
+    exists new, l_syms (s_st (secs vma sub name ss s)) = (new ++ l_syms (s_st ss))%list.
+  Proof.
+    destruct (sec_stmt_cases env senv ext true vma sub name ss s)
+      as [[p [h [r [sym [e [Es E]]]]]] | [[k [path [member [sect [wild [off' [pls [c [Es [Ep E]]]]]]]]]] | [E _]]];
+      rewrite E; try (exists []; reflexivity). apply assign_syms_grow.
+  Qed.
+
+  Lemma defined_grow st st' x : (exists new, l_syms st' = (new ++ l_syms st)%list) -> defined st x -> defined st' x.
+  Proof. intros [new E] [v Hv]. unfold defined. rewrite E. eapply lookup_app_some. exact Hv. Qed.
+
+  Lemma failed_grow st st' : (exists new, l_errors st' = (l_errors st ++ new)%list) -> failed st -> failed st'.
+  Proof. intros [new E] H. unfold failed. rewrite E. apply app_not_nil. exact H. Qed.
+
+  Lemma good_grow st st' l :
+    (exists new, l_syms st' = (new ++ l_syms st)%list) -> (exists new, l_errors st' = (l_errors st ++ new)%list) ->
+    good st l -> good st' l.
+  Proof.
+    intros Hs He [H|H]; [left; eapply failed_grow; eassumption|right].
+    eapply Forall_impl; [|exact H]. intros x Hx. eapply defined_grow; eassumption.
+  Qed.
+
+  Lemma good_app st l1 l2 : good st l1 -> good st l2 -> good st (l1 ++ l2).
+  Proof. intros [H1|H1] [H2|H2]; try (left; assumption). right. apply Forall_app. auto. Qed.
+
+  Lemma good_nil st : good st [].
+  Proof. right. constructor. Qed.
+
+  (* a non-PROVIDE assignment in a final pass defines its symbol or reports an error *)
+  Lemma assign_good sym r text st : good (assign ext true false sym r text st) [sym].
+  Proof.
+    unfold assign. destruct r as [v|e].
+    - cbn [andb]. right. constructor; [|constructor]. exists v. apply lookup_set_sym_same.
+    - left. unfold failed. destruct e; cbn [andb negb add_err l_errors];
+        intro E; apply app_eq_nil in E; destruct E; discriminate.
+  Qed.
+
+  Lemma sec_stmt_good vma sub name ss s : good (s_st (secs vma sub name ss s)) (rec_sec s).
+  Proof.
+    destruct s; try apply good_nil. cbn [rec_sec]. destruct provide; [apply good_nil|].
+    destruct recorded; [|apply good_nil]. cbn [exec_sec_stmt s_st]. apply assign_good.
+  Qed.
+
+  Lemma sec_fold_syms_grow vma sub name body : forall ss,
+    exists new, l_syms (s_st (fold_left (secs vma sub name) body ss)) = (new ++ l_syms (s_st ss))%list.
+  Proof.
+    induction body as [|s body IH]; intro ss; [exists []; reflexivity|]. cbn [fold_left].
+    destruct (IH (secs vma sub name ss s)) as [n1 E1]. destruct (sec_stmt_syms_grow vma sub name ss s) as [n2 E2].
+    exists (n1 ++ n2)%list. rewrite E1, E2, app_assoc. reflexivity.
+  Qed.
+
+  Lemma sec_fold_good vma sub name body : forall ss,
+    good (s_st (fold_left (secs vma sub name) body ss)) (flat_map rec_sec body).
+  Proof.
+    induction body as [|s body IH]; intro ss; [apply good_nil|]. cbn [fold_left flat_map].
+    apply good_app; [|apply IH].
+    eapply good_grow; [apply sec_fold_syms_grow | apply sec_fold_errors | apply sec_stmt_good].
+  Qed.
+
+  Lemma outsec_syms_grow name addr at_ noload sub body st :
+    exists new, l_syms (exec_outsec env senv ext true name addr at_ noload sub body st) = (new ++ l_syms st)%list.
+  Proof.
+    destruct (outsec_vma env senv ext addr sub body st) as [vma|e] eqn:E.
+    - destruct (exec_outsec_ok env senv ext true name addr at_ noload sub body st vma E) as [_ [Hs _]]. rewrite Hs.
+      apply (sec_fold_syms_grow vma (option_map Z.of_N sub) name body (SState 0 false st)).
+    - rewrite (exec_outsec_err _ _ _ _ _ _ _ _ _ _ _ _ E). exists []. reflexivity.
+  Qed.
+
+  Lemma outsec_good name addr at_ noload sub body st :
+    good (exec_outsec env senv ext true name addr at_ noload sub body st) (flat_map rec_sec body).
+  Proof.
+    destruct (outsec_vma env senv ext addr sub body st) as [vma|e] eqn:E.
+    - destruct (exec_outsec_ok env senv ext true name addr at_ noload sub body st vma E)
+        as [_ [Hs [_ [_ [_ [_ [_ He]]]]]]].
+      destruct (sec_fold_good vma (option_map Z.of_N sub) name body (SState 0 false st)) as [G|G].
+      + left. unfold failed in *. unfold outsec_body in He. destruct He as [He|He]; rewrite He; [exact G|].
+        apply app_not_nil. exact G.
+      + right. eapply Forall_impl; [|exact G]. intros x [v Hv]. exists v. rewrite Hs. exact Hv.
+    - rewrite (exec_outsec_err _ _ _ _ _ _ _ _ _ _ _ _ E). left. unfold failed. cbn [add_err l_errors].
+      intro E0. apply app_eq_nil in E0. destruct E0; discriminate.
+  Qed.
+
+  Lemma top_syms_grow st s : exists new, l_syms (top st s) = (new ++ l_syms st)%list.
+  Proof.
+    assert (Hsame : l_syms (top st s) = l_syms st -> exists new, l_syms (top st s) = (new ++ l_syms st)%list)
+      by (intro E; exists []; exact E).
+    destruct s; try (apply Hsame; reflexivity); cbn [exec_top_stmt].
+    - destruct (String.eqb sym ".").
+      + destruct (eval_expr env senv ext st (l_dot st) e); exists []; reflexivity.
+      + apply assign_syms_grow.
+    - destruct (String.eqb sym "."); [exists []; reflexivity|].
+      destruct (sym_lookup sym st env ext); [eexists [_]|exists []]; reflexivity.
+    - destruct (sym_lookup sym st env ext); [destruct (sym_lookup other st env ext)|];
+        try (exists []; reflexivity). eexists [_]. reflexivity.
+    - destruct (sym_lookup "__romPos" st env ext); [destruct (sec_lookup sec st senv)|];
+        try (exists []; reflexivity). eexists [_]. reflexivity.
+    - apply outsec_syms_grow.
+    - destruct (place 0 None sect _ 0 [] false) as [[off' pls] c]. exists []. reflexivity.
+    - destruct (eval_raw env ext st cond) as [v|e]; [destruct (v =? 0); exists []; reflexivity|].
+      destruct e; exists []; reflexivity.
+  Qed.
+
+  Lemma top_good st s : good (top st s) (rec_top s).
+  Proof.
+    destruct s; try apply good_nil.
+    - cbn [rec_top]. destruct provide; [apply good_nil|]. destruct recorded; [|apply good_nil].
+      cbn [exec_top_stmt]. destruct (String.eqb sym "."); [apply good_nil | apply assign_good].
+    - cbn [rec_top exec_top_stmt]. apply outsec_good.
+  Qed.
+
+  Lemma run_syms_grow l : forall st, exists new, l_syms (runl l st) = (new ++ l_syms st)%list.
+  Proof.
+    induction l as [|s l IH]; intro st; [exists []; reflexivity|]. rewrite run_cons.
+    destruct (IH (top st s)) as [n1 E1]. destruct (top_syms_grow st s) as [n2 E2].
+    exists (n1 ++ n2)%list. rewrite E1, E2, app_assoc. reflexivity.
+  Qed.
+
+  Lemma run_good l : forall st, good (runl l st) (flat_map rec_top l).
+  Proof.
+    induction l as [|s l IH]; intro st; [apply good_nil|]. rewrite run_cons. cbn [flat_map].
+    apply good_app; [|apply IH].
+    eapply good_grow; [apply run_syms_grow | apply run_errors | apply top_good].
+  Qed.
+
+  Definition step (st : lstate) (s : stmt) : lstate :=
+    match s with
+    | SSections body => fold_left (exec_top_stmt env senv ext true) body st
+    | _ => exec_top_stmt env senv ext true st s
+    end.
+
+  Lemma exec_script_fold script st : exec_script env senv ext true script st = fold_left step script st.
+  Proof. reflexivity. Qed.
+
+  Lemma step_grow st s :
+    (exists new, l_syms (step st s) = (new ++ l_syms st)%list) /\
+    (exists new, l_errors (step st s) = (l_errors st ++ new)%list) /\
+    good (step st s) (rec_script s).
+  Proof.
+    destruct s; try (split; [apply top_syms_grow | split; [apply top_errors | apply top_good]]).
+    cbn [step rec_script]. split; [apply (run_syms_grow body)|]. split; [apply (run_errors _ _ _ _ body) | apply (run_good body)].
+  Qed.
+
+  Lemma script_good script : forall st, good (fold_left step script st) (exec_recorded script).
+  Proof.
+    induction script as [|s script IH]; intro st; [apply good_nil|]. cbn [fold_left]. unfold exec_recorded.
+    cbn [flat_map]. apply good_app; [|apply IH].
+    destruct (step_grow st s) as [_ [_ G]]. revert G. generalize (step st s). intros st1 G.
+    clear IH. revert st1 G. induction script as [|s2 script IH2]; intros st1 G; [exact G|]. cbn [fold_left].
+    apply IH2. destruct (step_grow st1 s2) as [Hs [He _]]. eapply good_grow; eassumption.
+  Qed.
+
+  (* C13_defined *)
+  Theorem recorded_defined script st sym :
+    let st' := exec_script env senv ext true script st in
+    l_errors st' = [] -> In sym (exec_recorded script) -> exists v, lookup sym (l_syms st') = Some v.
+  Proof.
+    intros st' He Hin. unfold st' in *. rewrite exec_script_fold in *.
+    destruct (script_good script st) as [G|G]; [contradiction|].
+    rewrite Forall_forall in G. apply G. exact Hin.
+  Qed.
+End Link.
+
+(* ---------- the scripts slinky writes are flat ---------- *)
+
+Definition fs (s : stmt) : Prop := flat_sec s = true.
+Definition ft (s : stmt) : Prop := flat_top s = true.
+
+Lemma ft_linker sty sym e : style_name sty sym -> ft (linker_symbol sym e).
+Proof.
+  intro H. unfold ft, linker_symbol. cbn [flat_top]. rewrite (style_name_eqb sty sym "." H eq_refl). reflexivity.
+Qed.
+
+Ltac ft_leaf :=
+  repeat match goal with
+         | |- Forall _ (_ ++ _) => apply Forall_app; split
+         | |- Forall _ (match ?x with _ => _ end) => destruct x
+         | |- Forall _ (if ?x then _ else _) => destruct x
+         | |- Forall _ (_ :: _) => constructor
+         | |- Forall _ [] => constructor
+         | |- ft (linker_symbol _ _) => eapply ft_linker; sn
+         | |- ft _ => reflexivity
+         end.
+
+Lemma fs_part_groups rt st cfg seg sections rest ws s ws' :
+  part_groups rt st cfg seg sections rest ws = Ok (s, ws') -> Forall fs s.
+Proof. apply (gp_part_groups fs); intros; reflexivity. Qed.
+
+Lemma fs_emit_section rt sty cfg seg sections base section ws s ws' :
+  emit_section rt sty cfg seg sections base section ws = Ok (s, ws') -> Forall fs s.
+Proof. apply (gp_emit_section fs); intros; reflexivity. Qed.
+
+Lemma fs_opt_fill seg : Forall fs (opt_fill seg).
+Proof. unfold opt_fill. destruct (fill_value seg); repeat constructor. Qed.
+
+Lemma ft_outsec name addr at_ noload sub body : Forall fs body -> ft (SOutSec name addr at_ noload sub body).
+Proof. intro H. unfold ft. cbn [flat_top]. apply forallb_forall. rewrite Forall_forall in H. exact H. Qed.
+
+Lemma ft_kind_start sty cfg seg noload : Forall ft (sections_kind_start sty cfg seg noload).
+Proof. unfold sections_kind_start. ft_leaf. Qed.
+
+Lemma ft_kind_end sty cfg seg noload : Forall ft (sections_kind_end sty cfg seg noload).
+Proof. unfold sections_kind_end, sym_end_size. ft_leaf. Qed.
+
+Lemma ft_opt_align a : Forall ft (opt_align a).
+Proof. unfold opt_align. ft_leaf. Qed.
+
+Lemma ft_gp_stmt rt seg section : Forall ft (gp_stmt rt seg section).
+Proof. unfold gp_stmt. ft_leaf. Qed.
+
+Lemma ft_section_symbol_start rt sty cfg seg section : Forall ft (section_symbol_start rt sty cfg seg section).
+Proof.
+  unfold section_symbol_start. destruct (section_syms cfg); [|constructor].
+  fa; try apply ft_opt_align; try apply ft_gp_stmt. ft_leaf.
+Qed.
+
+Lemma ft_section_symbol_end sty cfg seg section : Forall ft (section_symbol_end sty cfg seg section).
+Proof.
+  unfold section_symbol_end. destruct (section_syms cfg); [|constructor].
+  fa; try apply ft_opt_align. unfold sym_end_size. ft_leaf.
+Qed.
+
+Lemma ft_write_segment rt st cfg seg sections noload ws s ws' :
+  write_segment rt st cfg seg sections noload ws = Ok (s, ws') -> Forall ft s.
+Proof.
+  intro H. apply write_segment_inv in H. destruct H as [body [E H]]. subst.
+  fa; [apply ft_kind_start | | apply ft_kind_end].
+  constructor; [|constructor]. apply ft_outsec. apply Forall_app; split; [apply fs_opt_fill|].
+  eapply fs_part_groups; eassumption.
+Qed.
+
+Lemma ft_single_groups rt st cfg seg sections noload rest : forall ws s ws',
+  single_groups rt st cfg seg sections noload rest ws = Ok (s, ws') -> Forall ft s.
+Proof.
+  induction rest as [|section rest IH]; intros ws s ws' H.
+  - apply ok_inj in H. inversion H; subst. constructor.
+  - apply single_groups_cons in H. destruct H as [s1 [ws1 [s2 [E1 [E2 E]]]]]. subst.
+    fa.
+    + apply ft_section_symbol_start.
+    + constructor; [|constructor]. apply ft_outsec.
+      apply Forall_app; split; [apply fs_opt_fill|]. eapply fs_emit_section; eassumption.
+    + apply ft_section_symbol_end.
+    + ft_leaf.
+    + eapply IH; eassumption.
+Qed.
+
+Lemma ft_write_single_segment rt st cfg seg sections noload ws s ws' :
+  write_single_segment rt st cfg seg sections noload ws = Ok (s, ws') -> Forall ft s.
+Proof.
+  intro H. apply write_single_segment_inv in H. destruct H as [body [E H]]. subst.
+  fa; [apply ft_kind_start | | apply ft_kind_end]. eapply ft_single_groups; eassumption.
+Qed.
+
+Lemma ft_class_start st c cn : Forall ft (class_start_stmts st c cn).
+Proof.
+  unfold class_start_stmts. apply Forall_app; split; [|ft_leaf].
+  destruct (vc_fixed_vram c); [ft_leaf|]. destruct (vc_fixed_symbol c); [ft_leaf|].
+  constructor; [eapply ft_linker; sn|]. apply Forall_map_intro. reflexivity.
+Qed.
+
+Lemma ft_seg_head st seg : Forall ft (seg_head st seg).
+Proof. unfold seg_head. ft_leaf. Qed.
+
+Lemma ft_seg_foot st seg : Forall ft (seg_foot st seg).
+Proof. unfold seg_foot, sym_end_size. cbv zeta. ft_leaf. Qed.
+
+Lemma ft_add_segment rt st cfg classes seg ws s ws' :
+  add_segment rt st cfg classes seg ws = Ok (s, ws') -> Forall ft s.
+Proof.
+  intro H. apply add_segment_inv in H.
+  destruct H as [[_ [E _]] | [_ [cls [ws1 [s1 [ws2 [s2 [Ec [E1 [E2 E]]]]]]]]]]; subst; [constructor|].
+  fa.
+  - apply class_part_inv in Ec. destruct Ec as [[E _] | [cn [c [_ [_ [_ [E _]]]]]]]; subst;
+      [constructor | apply ft_class_start].
+  - apply ft_seg_head.
+  - eapply ft_write_segment; eassumption.
+  - ft_leaf.
+  - eapply ft_write_segment; eassumption.
+  - ft_leaf.
+  - apply ft_seg_foot.
+Qed.
+
+Lemma ft_fold_add_segment rt st cfg classes segs ws s ws' :
+  fold_out (add_segment rt st cfg classes) segs ws = Ok (s, ws') -> Forall ft s.
+Proof.
+  apply (fold_out_rel (fun _ s _ => Forall ft s)).
+  - constructor.
+  - intros. apply Forall_app; split; assumption.
+  - intros seg w t w' _ H. eapply ft_add_segment; eassumption.
+Qed.
+
+Lemma ft_end_sections st classes ws : Forall ft (end_sections_body st classes ws).
+Proof.
+  rewrite end_sections_layout.
+  assert (Hparts : Forall (Forall ft)
+                     [tail_sizes st classes ws; tail_allow st; tail_extra st; tail_discard st]).
+  { repeat constructor.
+    - apply Forall_map_intro. intro cn. eapply ft_linker. sn.
+    - apply Forall_map_intro. reflexivity.
+    - apply Forall_map_intro. reflexivity.
+    - unfold tail_discard. ft_leaf. }
+  induction Hparts as [|p r Hp Hr IH]; [constructor|]. simpl. destruct p as [|y p]; [exact IH|].
+  apply Forall_app; split; [exact Hp|]. destruct (sep_concat r); [constructor|].
+  constructor; [reflexivity | exact IH].
+Qed.
+
+Lemma ft_begin st : Forall ft (begin_sections_body st).
+Proof. unfold begin_sections_body, hardcoded_gp_stmts. ft_leaf. Qed.
+
+Lemma ft_single_head st cfg seg : Forall ft (single_head st cfg seg).
+Proof.
+  rewrite single_head_shape. destruct (section_syms cfg), (hardcoded_gp_value st), (sg_fixed_vram seg);
+    repeat constructor.
+Qed.
+
+Lemma Forall_forallb {A} (f : A -> bool) l : Forall (fun x => f x = true) l -> forallb f l = true.
+Proof. intro H. apply forallb_forall. rewrite Forall_forall in H. exact H. Qed.
+
+Lemma flat_add_all_segments rt st cfg classes segs ws s ws' :
+  add_all_segments rt st cfg classes segs ws = Ok (s, ws') -> script_flat s = true.
+Proof.
+  intro H. apply add_all_segments_inv in H. destruct H as [[_ [seg [_ H]]] | [_ [body [E H]]]].
+  - apply add_single_segment_inv in H. destruct H as [s1 [ws1 [s2 [E1 [E2 E]]]]]. subst s.
+    unfold script_flat. cbn [forallb flat_stmt]. rewrite andb_true_r. apply Forall_forallb. fa.
+    + apply ft_single_head.
+    + eapply ft_write_single_segment; eassumption.
+    + repeat constructor.
+    + eapply ft_write_single_segment; eassumption.
+    + repeat constructor.
+    + apply ft_end_sections.
+  - subst s. unfold script_flat. cbn [forallb flat_stmt]. rewrite andb_true_r. apply Forall_forallb. fa.
+    + apply ft_begin.
+    + eapply ft_fold_add_segment; eassumption.
+    + apply ft_end_sections.
+Qed.
+
+Lemma flat_tail_stmts rt d : script_flat (tail_stmts rt d) = true.
+Proof.
+  unfold script_flat. rewrite tail_stmts_layout, !forallb_app.
+  assert (E1 : forall l, forallb flat_stmt (map assign_stmt l) = true)
+    by (intro l; induction l; simpl; auto).
+  assert (E2 : forall l, forallb flat_stmt (flat_map required_pair l) = true)
+    by (intro l; induction l; simpl; auto).
+  assert (E3 : forall l, forallb flat_stmt (map assert_stmt l) = true)
+    by (intro l; induction l; simpl; auto).
+  destruct (doc_entry d), (nonempty (doc_symbol_assignments d)), (nonempty (doc_required_symbols d)),
+    (nonempty (doc_asserts d)); cbn [forallb flat_stmt flat_top andb]; rewrite ?E1, ?E2, ?E3; reflexivity.
+Qed.
+
+Theorem flat_gen_normal d rt w : gen_normal d rt = Ok w -> script_flat (wo_script w) = true.
+Proof.
+  intro H. apply gen_normal_inv in H. destruct H as [s [ws' [E H]]]. subst w. cbn [wo_script].
+  unfold script_flat. rewrite !forallb_app. fold (script_flat s). fold (script_flat (tail_stmts rt d)).
+  rewrite (flat_add_all_segments _ _ _ _ _ _ _ _ E), flat_tail_stmts.
+  unfold version_stmts. destruct (rt_emit_version_comment rt); reflexivity.
+Qed.
+
+(* every name the symbols header declares is defined by a final pass that ends without error *)
+Theorem header_symbols_defined env senv ext d rt w st sym :
+  gen_normal d rt = Ok w ->
+  let st' := exec_script env senv ext true (wo_script w) st in
+  l_errors st' = [] -> In sym (linker_symbols w) -> exists v, lookup sym (l_syms st') = Some v.
+Proof.
+  intros H st' He Hin. apply (recorded_defined env senv ext (wo_script w) st sym He).
+  rewrite <- exec_recorded_flat by (eapply flat_gen_normal; eassumption).
+  apply linker_symbols_in. exact Hin.
+Qed.
+
+(* ... in particular by ld's last pass *)
+Theorem header_symbols_defined_layout d rt w u ext0 sym :
+  gen_normal d rt = Ok w ->
+  let st' := layout (wo_script w) u ext0 in
+  l_errors st' = [] -> In sym (linker_symbols w) -> exists v, lookup sym (l_syms st') = Some v.
+Proof. intros H st' He Hin. unfold st', layout in *. eapply header_symbols_defined; eassumption. Qed.
